@@ -99,7 +99,7 @@ CLAIMS = {
     "C07": ("who-frees analysis over Drop impls (GUARDED uniqueness test or pointee ownership), ESCAPE of the VersionRef, ORIGIN pipeline chains, ADT field-type facts; re-evaluates C06.3/5 (snapshot capture and visibility watermark)",
             "Decides the ownership/escape structure a memory-safe snapshot needs: shared memory is freed only by the Arc's pointee or "
             "behind a uniqueness test, iterators hold a clone of the list's Arc, the returned scan cursor owns the VersionRef that "
-            "pins its files, every scan pipeline prunes at the captured timestamp, cursors have no borrowed fields.  A `strong_count == 2` last-handle test is made under the file manager's lock.  Every function that replaces the current version takes references for the new one first (C08.2), so a held snapshot keeps pinning its files across trivial moves.  Does not "
+            "pins its files, every scan pipeline prunes at the captured timestamp, cursors have no borrowed fields.  A `strong_count == 2` last-handle test is made under the file manager's lock.  Every function that replaces the current version takes references for the new one first (C08.2), so a held snapshot keeps pinning its files across trivial moves.  The scan cursor's version pin is a by-value field that is never rewritten.  Does not "
             "decide which schedules would free memory under a live cursor.", "§4 C07"),
     "C17": ("atomic-ordering operand table with identity-only slice for Relaxed loads, ORDER with cycles (initialise before publish), value slice of the level index (bottom-up linking), who-may-call for deref/free",
             "Decides publication order and confinement: Release stores / AcqRel CAS / Acquire loads on every pointer that can be "
